@@ -448,7 +448,48 @@ def _all_keys(o):
             yield from _all_keys(v)
 
 
+def deep_nesting_case(ctx, depth):
+    """containers nested hundreds of levels deep (a linked structure dumped as it is): the JSON-mode output parses to
+    the value (the literal evaluator of python refuses such texts by itself: only JSON mode is driven)"""
+    ctx.evaluated()
+    value = []
+    for k in range(depth):
+        value = [value, k] if k % 3 else {"next": value, "n": k}
+    case = {"json_mode": True, "deep_nesting": depth}
+    try:
+        text = str(PrettyPrinter(fmt_json=True)(value, no_color=True))
+    except (Exception, RecursionError) as err:
+        ctx.violation("printing-raises", {"type": type(err).__name__, "msg": str(err)[:100], "nesting": depth}, case)
+        return
+    ctx.count("values_nested_hundreds_of_levels_deep")
+    try:
+        back = json.loads(text)
+    except (Exception, RecursionError) as err:
+        ctx.violation("output-does-not-parse", {"type": type(err).__name__, "msg": str(err)[:100], "nesting": depth}, case)
+        return
+    # (compared level by level: == on such a structure is recursive)
+    a, b, level = value, back, 0
+    while True:
+        if type(a) is not type(b) or len(a) != len(b):
+            break
+        if isinstance(a, list) and a:
+            if a[1] != b[1]:
+                break
+            a, b = a[0], b[0]
+        elif isinstance(a, dict):
+            if a["n"] != b.get("n") or list(b) != ["n", "next"]:
+                break
+            a, b = a["next"], b["next"]
+        else:
+            level = depth
+            break
+        level += 1
+    if level != depth:
+        ctx.violation("read-back-value-differs", {"nesting": depth, "first_difference_at_level": level}, case)
+
+
 def run_shard(ctx):
+    deep_nesting_case(ctx, (480, 700, 530, 860)[ctx.shard % 4])
     for i in range(ctx.cases):
         rng = ctx.rng(i)
         for jm in (True, False):
@@ -470,6 +511,9 @@ def run_shard(ctx):
 
 
 def replay(ctx, case):
+    if case.get("deep_nesting"):
+        deep_nesting_case(ctx, case["deep_nesting"])
+        return
     judge(ctx, case["value"], case["json_mode"], case)
     # (a later call with another value: results of the first that are still pending get rendered in it)
     judge(ctx, {"another": ["value", 1]}, case["json_mode"], dict(case, value={"another": ["value", 1]}))
